@@ -565,7 +565,7 @@ var clauseKeywords = map[string]bool{
 	"func": true, "requires": true, "ensures": true, "preserves": true, "modifies": true, "loop": true,
 	"invariant": true, "decreases": true, "assert": true, "nopanic": true, "safe": true, "pure": true,
 	"inline": true, "trusted": true, "spec": true, "lemma": true, "ghost": true, "external": true,
-	"guarded": true, "atomic": true, "immutable": true, "confined": true,
+	"guarded": true, "atomic": true, "immutable": true, "confined": true, "purefunc": true,
 }
 
 var tagRe = regexp.MustCompile(`^\[((?:C[0-9]+)(?:\s*,\s*C[0-9]+)*)\]\s*`)
@@ -899,7 +899,7 @@ func (cs *ContractSet) ParseFile(path, pkgdir string) error {
 				cs.Ghosts = append(cs.Ghosts, &GhostVar{Name: f[1], Type: strings.Join(f[2:], " "), Pkg: pkgdir})
 			}
 			cur = nil
-		case "guarded", "atomic", "immutable", "confined":
+		case "guarded", "atomic", "immutable", "confined", "purefunc":
 			tags, _, r := parseTagsLabel(rest)
 			fd := &FieldDecl{Kind: kw, Pkg: pkgdir, Tags: tags}
 			parts := strings.Split(r, " by ")
